@@ -1,5 +1,5 @@
 """C19 Stack and arena allocation is memory-safe: one allocator call from an arbitrary invariant-satisfying state."""
-import z3
+import z3, os
 from vf import ir, build, llsym, world as W
 from vf.runner import Checker
 from vf.irparse import IntT
@@ -270,7 +270,7 @@ def unit_threadlock(tier, nthreads=2, al_fixed=None):
     dobj = S.w.map[S.d].obj; poff = S.off['pstack']
     ex.is_shared = lambda stt, p: isinstance(p, llsym.Ptr) and p.obj == dobj and p.off == poff
     calls = [('@mj_stackAllocByte', [S.w.P(S.d), sizes[t], als[t]]) for t in range(nthreads)]
-    outs = llconc.interleavings(ex, st, calls)
+    outs = llconc.interleavings(ex, st, calls, max_schedules=int(os.environ.get('VERIF_C19_SCHED', '20000')))
     sched_var = z3.BitVec('schedule', 16)
     def seq_replay(sched, blocks, ps2):
         def replay(model, witness):
